@@ -165,6 +165,7 @@ class Interp:
         self.keep = keep          # record the state at every normal return, never drop dead variables
         self._dead = False
         self._tables = {}
+        self._pure_memo = {}
         self._param_ds = {p['d'] for p in fn.params}
         self.kr = {}          # key -> type range
         self.edeps = {}       # e-key text -> (deps frozenset, pointer_based)
@@ -1152,6 +1153,25 @@ class Interp:
                 arrive(succ, s2)
         return res
 
+    def _pure_cond(self, nid):
+        c = self._pure_memo.get(nid)
+        if c is not None:
+            return c
+        fn = self.fn
+        ok = True
+        for x in fn.subtree(nid):
+            m = fn.nodes[x]
+            k = m.get('k')
+            if k in ('assign', 'new', 'delete', 'lambda', 'construct', 'throw', 'condop') or (k == 'unop' and m.get('op') in ('++', '--')):
+                ok = False
+            elif k == 'call' and 'cv' not in m and m.get('q') not in PURE_CALLS and not m.get('q', '').startswith('std::numeric_limits::'):
+                if writes_int_memory(fn.fb, m.get('u'), any_type=True):
+                    ok = False
+            if not ok:
+                break
+        self._pure_memo[nid] = ok
+        return ok
+
     def _fork_named_condition(self, n, st, vals):
         """`const bool ok = a >= 0 && a <= 11;` -- a condition given a name: split the state into the cases ok / not ok with what
         the condition implies in each (the flag holds one value per state, so a later `if (ok)` selects the right case).
@@ -1262,11 +1282,16 @@ class Interp:
             if not succs:
                 continue
             if 'cond' in blk and len(succs) == 2 and blk.get('termcls') != 'SwitchStmt' and isinstance(blk.get('cond'), int):
-                ec = effective_cond(fn, blk)
+                # a side-effect-free condition is judged as a whole (operands evaluated in predecessor blocks are re-read:
+                # nothing ran in between), so `!(a || b || c)` and other join-block shapes refine like the `&&` chain
+                if self._pure_cond(blk['cond']):
+                    ec, where = blk['cond'], _Everything()
+                else:
+                    ec, where = effective_cond(fn, blk), here
                 for idx, sense in ((0, True), (1, False)):
                     if succs[idx] is None:
                         continue
-                    for s2 in self.refine(ec, sense, st, vals, here):
+                    for s2 in self.refine(ec, sense, st, vals, where):
                         out.append((s2, succs[idx]))
             else:
                 for s in succs:
